@@ -166,6 +166,7 @@ def harness(cfg, B):
             ref = ref + (dtv[m] if local else dt) * (b[j] * K[j][0][m])
         B.ob('result[%d]' % m, 'eq', f.data[0][m], ref)
     if local:
+        B.ob('time-advance-by-the-minimum', 'le', abs(f.time - (t0 + dt)), B.const(TOL) * dt, tol=1e-9)
         return
     B.ob('time-advance', 'le', abs(f.time - (t0 + dt)), B.const(TOL) * dt, tol=1e-9)
 
